@@ -6,6 +6,7 @@ From Coq Require Import List NArith ZArith Lia Bool Arith.
 From Coq Require Import Init.Byte.
 From FFS Require Import Base.Res Base.Bytes Base.Lit Abi.Types Abi.Spec Abi.ModelTypes Abi.EncModel Abi.InputModel.
 From FFS Require Export Abi.CaseLit.
+From FFS Require EthTypes.Model.
 Import ListNotations.
 
 (* what the harness knows about the input: it denotes this well-typed value (the implementation must
@@ -22,6 +23,16 @@ Inductive case :=
 | CParse (params : list tcomp) (input : ext) (cls : nat) (tree : option cval)
 (* ComponentValue.EncodeABIData on a hand-built tree (possibly ill-formed) *)
 | CTree (cv : cval) (cls : nat) (out : bytes).
+
+(* same outcome class and bytes (the walk is run twice: with the local copy of the text parser and with
+   property C19's model of it, which the composed theorem C02_number_texts_exact_or_rejected uses) *)
+Definition res_bytes_eqb (a b : res bytes) : bool :=
+  match a, b with
+  | Ok x, Ok y => bytes_eqb x y
+  | Err _, Err _ => true
+  | Panic, Panic => true
+  | _, _ => false
+  end.
 
 (* result codes: 0 agree; 1..9 model differs from implementation; >= 10 implementation breaks the
    property *)
@@ -40,6 +51,8 @@ Definition check_case (c : case) : N :=
         | ONone => 0
         end in
       if negb (oc =? 0)%N then oc
+      else if negb (res_bytes_eqb (EncodeABIDataValues BigIntegerFromString params input)
+                                  (EncodeABIDataValues EthTypes.Model.BigIntegerFromString params input)) then 7
       else match EncodeABIDataValues BigIntegerFromString params input, cls with
            | Ok b, 0%nat => if bytes_eqb (prefix ++ b) out then 0 else 1
            | Err _, 1%nat => 0
